@@ -120,6 +120,11 @@ def related(proto, sent, got):
 
 def one_queue(ctx, he, rng, proto, mpm, n):
   dps = [gen_dp(rng) for _ in range(n)]
+  if rng.random() < 0.4:
+    # the same name OBJECT queued again and again (an aggregator sends its metric_path at every flush)
+    pool = [dps[0][0], dps[-1][0]]
+    dps = [(pool[q % 2] if rng.random() < 0.7 else d[0], float(1000 + 3 * q) + (0.5 if rng.random() < 0.3 else 0.0), d[2])
+           for q, d in enumerate(dps)]
   f, p, tr = he.client(proto, mpm)
   # datapoints arrive in bursts; the send timer fires in between
   i = 0
@@ -141,7 +146,12 @@ def one_queue(ctx, he, rng, proto, mpm, n):
     k = 0
     while pos + 4 <= len(raw):
       (ln,) = struct.unpack('!L', raw[pos:pos + 4])
-      payload = pickle.loads(raw[pos + 4:pos + 4 + ln])
+      try:
+        payload = pickle.loads(raw[pos + 4:pos + 4 + ln])
+      except Exception as e:
+        # a frame that a plain, independent unpickler cannot read: nothing downstream can be aligned
+        return [dict(proto=proto, mode='frames', ref=[], refclosed=0, frames=[], segs=[], batches=[], mpm=mpm, n=n,
+                     undecodable=repr(e))], dps, raw
       cnt = len(payload)
       frames.append(dict(len=4 + ln, kind='good', trip=4 + ln, ids=ids[k:k + cnt], what=''))
       batches.append(cnt)
@@ -170,7 +180,7 @@ def one_queue(ctx, he, rng, proto, mpm, n):
   cutsets = wiresys.all_cuts(len(raw), rng, ctx.pick(5, 20), pri[:ctx.pick(3, 12)]) if len(raw) > 1 else [[]]
   # (byte-by-byte delivery only for the first 150 bytes: TLC judges every segment)
   cutsets = [c if len(c) <= 160 else c[:150] for c in cutsets]
-  byname = {dps[q][0]: q for q in range(n)}
+  bykey = {(dps[q][0], math.floor(dps[q][1])): q for q in range(n)}
   relcache = {}
   for cuts in cutsets:
     run = wiresys.Run(he.wm, lproto)
@@ -185,7 +195,7 @@ def one_queue(ctx, he, rng, proto, mpm, n):
         for j, g in enumerate(new):
           expect_idx = nseen + j          # position in the overall delivery order
           # identify by name (unique), then check the relation
-          q = byname.get(g[0])
+          q = bykey.get((g[0], math.floor(g[1]) if g[1] == g[1] and abs(g[1]) < 1e18 else None))
           key = (q, g[1], g[2])
           if key not in relcache:
             relcache[key] = q is not None and related(proto, dps[q], g)
@@ -230,6 +240,10 @@ def run(ctx):
     if tr['n'] > tr['mpm']:
       ctx.nontriv(i)
     fl = set(verdicts[i])
+    if tr.get('undecodable'):
+      ctx.violation('a message written by the %s client cannot be decoded on its own by an independent decoder (%s)' % (tr['proto'], tr['undecodable']),
+                    dict(origin=origins[i]), signature='undecodable:' + tr['proto'])
+      continue
     if any(b > tr['mpm'] or b < 1 for b in tr['batches']) or sum(tr['batches']) != tr['n']:
       fl.add('batching')
     for f in sorted(fl & PROP):
@@ -238,7 +252,7 @@ def run(ctx):
   ctx.sample(dict(kind='hop', origin={k: v for k, v in origins[0].items() if k != 'datapoints'}, datapoints=origins[0]['datapoints'][:4],
                   batches=traces[0]['batches'], segs=traces[0]['segs'][:4]))
   import copy
-  bad = copy.deepcopy(traces[0])
+  bad = copy.deepcopy(next((t for t in traces if any(sg['delivered'] for sg in t['segs'])), traces[0]))
   for s in bad['segs']:
     if s['delivered']:
       s['delivered'][0] = 0
